@@ -182,3 +182,28 @@ Proof.
   - intros Hx. rewrite Hx in Hl. discriminate Hl.
   - apply PI_reachable. exact Hl.
 Qed.
+
+(** A fire-and-forget send waiting for queue space (phase [PGated], asynchronous kind) is released
+    by the START of its generation's teardown ([g_cancel], the generation ctx), not by its end
+    ([g_joined], the done channel): as soon as the ctx is cancelled the ConnClosed branch of the
+    three-way select is enabled, whether or not the bounded join has completed. (A wait on the done
+    channel instead would make a send parked on the generation's own receive goroutine a circular
+    wait that only the close timeout breaks.) *)
+Theorem parked_send_released s c :
+  c_phase (calls s c) = PGated -> is_async (c_kind (calls s c)) = true ->
+  g_cancel (gens s (c_gen (calls s c))) = true ->
+  c_phase (calls (fst (exec s (EnqueueClosed c))) c) = PDone RClosed /\
+  snd (exec s (EnqueueClosed c)) = [OCompleted c (c_kind (calls s c)) RClosed].
+Proof.
+  intros Hp Ha Hc. unfold exec. rewrite Hp, Ha, Hc. cbn [andb fst snd set_call calls]. rewrite upd_same.
+  split; reflexivity.
+Qed.
+
+(** … and before the teardown starts that branch is NOT enabled: a parked send is never failed
+    with ConnClosed while its generation is alive. *)
+Theorem parked_send_not_released_early s c :
+  g_cancel (gens s (c_gen (calls s c))) = false -> exec s (EnqueueClosed c) = (s, []).
+Proof.
+  intros Hc. unfold exec. destruct (c_phase (calls s c)); try reflexivity.
+  rewrite Hc, andb_false_r. reflexivity.
+Qed.
